@@ -6,6 +6,10 @@ def _install():
     orig = bl._format
     def _format2(obj, format_spec=""):
         with NoTracing():
+            quiet = getattr(type(obj), "_vf_quiet_format", False)
+        if quiet:                      # objects only ever formatted into log messages (harness stub): constant text, nothing realised
+            return "<quiet>"
+        with NoTracing():
             plain = (isinstance(format_spec, str) and format_spec == ""
                      and not isinstance(obj, (str, bl.AnySymbolicStr, int, float, bool))
                      and type(obj).__format__ is object.__format__)
